@@ -6,11 +6,13 @@
 
 static void explore(Result& R) {
     const bool th = R.args.thorough();
-    auto sd = rx::seeds(th);
+    auto sd = rx::seeds(th); long unit = 0;   // work units (seed x level) are dealt round-robin to the parallel shards
     for (size_t i = 0; i < sd.size(); i++) { int depth = (i < 2) ? (th ? 4 : 3) : (th ? 3 : 2);
+        if (!R.args.mine(unit++)) continue;
         long s0 = R["states"]; rx::explore_l1(R, sd[i], depth); R.tables["L1_states_per_seed"][sd[i].name + "@depth" + std::to_string(depth)] = R["states"] - s0; if (!R.internal_error.empty()) return; }
     R["L1_states"] = R["states"]; R["L1_transitions"] = R["transitions"];
     for (size_t i = 0; i < sd.size(); i++) { int depth = th ? 4 : 3; if (i >= 2 && !th) depth = 2;
+        if (!R.args.mine(unit++)) continue;
         long s0 = R["states"]; rx::explore_l2(R, sd[i], depth); R.tables["L2_states_per_seed"][sd[i].name + "@depth" + std::to_string(depth)] = R["states"] - s0; if (!R.internal_error.empty()) return; }
     R["L2_states"] = R["states"] - R["L1_states"]; R["L2_transitions"] = R["transitions"] - R["L1_transitions"];
     R["traces_validated_against_impl"] = R["transitions"]; R["evaluations"] = R["transitions"]; R["distinct_nontrivial"] = R["states"];
